@@ -2273,7 +2273,7 @@ impl<'a, S: RowSource> Executor<'a> for DynamicExecutor<'a, S> {
                                     std::cmp::Ordering::Equal
                                 });
                             }
-                        } else {
+                        } else if heap_size > 0 {
                             let boundary = &state.heap[0];
                             let should_replace = {
                                 let mut result = std::cmp::Ordering::Equal;
